@@ -140,10 +140,20 @@ class Build:
     """A scratch copy of /repo's working tree with the harness modules injected, shared by the
     checks that run on the same tree (same tree hash + same /verif hash)."""
 
-    def __init__(self):
+    def __init__(self, restrict=None):
+        """restrict: optional set of harness file names; only those (plus the shared spec files and
+        the base file of an extension file) are injected - used by `--only` runs to keep codegen short"""
+        self.restrict = None
+        if restrict:
+            r = set(restrict)
+            for f in list(r):
+                m = re.match(r"(.*_harness)_\w+\.rs$", f)
+                if m:
+                    r.add(m.group(1) + ".rs")
+            self.restrict = r
         self.th = tree_hash()
         self.vh = verif_hash(("kani",))
-        self.key = sha((self.th + self.vh).encode())[:24]
+        self.key = sha((self.th + self.vh + ",".join(sorted(self.restrict or []))).encode())[:24]
         self.dir = os.path.join(BUILD_ROOT, self.key)
         self.repo = os.path.join(self.dir, "repo")
         self.diff = None
@@ -240,6 +250,8 @@ class Build:
             # (so that new obligations can be added without touching - and re-keying - existing files)
             stem = hf[:-3]
             files = sorted(f for f in os.listdir(kdir) if f == hf or (f.startswith(stem + "_") and f.endswith(".rs")))
+            if self.restrict is not None:
+                files = [f for f in files if f in self.restrict]
             add = ""
             for f in files:
                 suffix = f[len(stem):-3]          # "" or "_<s>"
